@@ -119,7 +119,17 @@ Shapes == <<
   [Base EXCEPT !.inputs = <<dS>>, !.output = outS, !.r = TRUE, !.type = "js"],                  \* 44 --type over a directory
   [Base EXCEPT !.inputs = <<o_html, a_js>>, !.output = outS],                                   \* 45 html + js
   [Base EXCEPT !.inputs = <<dot>>, !.output = dot, !.r = TRUE, !.a = TRUE],                     \* 46 whole tree in place, hidden too
-  [Base EXCEPT !.inputs = <<dot>>, !.output = outS, !.r = TRUE, !.filters = <<Exc(<<100, 47, 42, 42>>)>>]   \* 47 --exclude d/**
+  [Base EXCEPT !.inputs = <<dot>>, !.output = outS, !.r = TRUE, !.filters = <<Exc(<<100, 47, 42, 42>>)>>],  \* 47 --exclude d/**
+  [Base EXCEPT !.inputs = <<a_js, n_txt>>, !.output = outS, !.s = TRUE],                        \* 48 sync of explicit files (known: syncfile)
+  [Base EXCEPT !.inputs = <<a_js, dS>>, !.output = outS, !.s = TRUE, !.r = TRUE],               \* 49 sync of a file and a directory
+  [Base EXCEPT !.inputs = <<d_c_js>>, !.output = <<111, 47, 112, 47, 113, 46, 106, 115>>],      \* 50 file -> o/p/q.js (directories are made)
+  [Base EXCEPT !.inputs = <<dS, hd_>>, !.output = outS, !.r = TRUE, !.a = TRUE],                \* 51 two directories, one hidden
+  [Base EXCEPT !.inputs = <<b_css, a_js>>, !.output = all_js, !.b = TRUE, !.type = "js"],       \* 52 bundle with --type over mixed names
+  [Base EXCEPT !.inputs = <<dot>>, !.output = all_js, !.b = TRUE, !.r = TRUE, !.match = <<G_js>>],   \* 53 bundle of everything matching
+  [Base EXCEPT !.inputs = <<dS>>, !.output = outS, !.r = TRUE, !.s = TRUE, !.filters = <<Exc(G_de)>>],  \* 54 sync: excluded files are copied
+  [Base EXCEPT !.inputs = <<<<100, 47, 46>>>>, !.output = outS, !.r = TRUE],                    \* 55 d/. (README: same as d/) (known: slashdot)
+  [Base EXCEPT !.inputs = <<d_>>, !.output = outS, !.r = TRUE, !.filters = <<Inc(G_cjs), Exc(<<100, 47, 42>>)>>],   \* 56 include then exclude d/*: the last match decides
+  [Base EXCEPT !.inputs = <<dot>>, !.output = outS, !.r = TRUE, !.a = TRUE, !.match = <<G_css>>, !.filters = <<Exc(<<100, 47, 42, 42>>)>>]  \* 57 --match and --exclude together
 >>
 
 Mk(S, k) == [tree |-> TreeOf(S), inv |-> Shapes[k]]
